@@ -76,6 +76,14 @@ fn main() {
                 let xt = vengine::model::xtree::XTree::build(&tree);
                 println!("{}", xt.render(&l.language, 400));
                 println!("{}", tree.root_node().to_sexp());
+                let (xt, hs) = vengine::model::xtree::XTree::build_nodes(tree.root_node());
+                for (i, h) in hs.iter().enumerate() {
+                    let ps = h.parse_state();
+                    let gid = h.grammar_id();
+                    if ps as usize >= l.language.parse_state_count() || std::env::var("VERIF_STATES").is_ok() {
+                        println!("node #{i} {} [{}..{}] parse_state={ps} grammar_id={gid} (states: {})", h.kind(), xt.nodes[i].start, xt.nodes[i].end, l.language.parse_state_count());
+                    }
+                }
                 return;
             }
             "--gen" => {
